@@ -164,7 +164,66 @@ func (m *prattModel) levelOf(p *pwPath, v ssa.Value) (prattLevel, bool) {
 			return prattLevel{which: which, fallback: true, load: ld, c: n}, true
 		}
 	}
+	// ... or a plain lookup (zero for an absent key) clamped from below: max(table[t], LOWEST)
+	for i := len(p.decisions) - 1; i >= 0; i-- {
+		if lk, _, ok := m.clampDecision(p, p.decisions[i]); ok {
+			if which, ld := m.tokenOf(p, lk.Index); which != "" {
+				return prattLevel{which: which, fallback: true, load: ld, c: n}, true
+			}
+		}
+	}
 	return prattLevel{}, false
+}
+
+// clampDecision: d found a plain lookup of the precedence table (zero for an absent key) at or below a constant k
+// that is below every level of the table and not below zero: the key is absent. Returns the lookup and k.
+func (m *prattModel) clampDecision(p *pwPath, d pwDecision) (*ssa.Lookup, int64, bool) {
+	bo, ok := d.cond.(*ssa.BinOp)
+	if !ok {
+		return nil, 0, false
+	}
+	set := orderingsOf(bo.Op, d.truth)
+	if set == 7 {
+		return nil, 0, false
+	}
+	x, y := p.resolve(bo.X), p.resolve(bo.Y)
+	lk := m.tableLookupOf(p, x)
+	if lk == nil || lk.CommaOk {
+		if lk = m.tableLookupOf(p, y); lk == nil || lk.CommaOk {
+			return nil, 0, false
+		}
+		x, y = y, x
+		set = flipOrderings(set)
+	}
+	c, ok := p.constOf(y)
+	if !ok || c.Kind() != constant.Int {
+		return nil, 0, false
+	}
+	k, _ := constant.Int64Val(c)
+	switch set {
+	case 1 | 2: // lookup <= k
+	case 1: // lookup < k
+		k--
+	default:
+		return nil, 0, false
+	}
+	if k < 0 {
+		return nil, 0, false
+	}
+	t := constTablesOf(m.pkg)[m.tableG]
+	if t == nil || len(t.vals) == 0 {
+		return nil, 0, false
+	}
+	for _, v := range t.vals {
+		cv, isC := v.(*ssa.Const)
+		if !isC || cv.Value == nil || cv.Value.Kind() != constant.Int {
+			return nil, 0, false
+		}
+		if n, _ := constant.Int64Val(cv.Value); n <= k {
+			return nil, 0, false // the clamp would also change the level of a token that has one
+		}
+	}
+	return lk, k, true
 }
 
 // fallbacks: the constants the lookups of the precedence table fall back to, over all functions of the package.
@@ -180,6 +239,7 @@ func (m *prattModel) fallbacks() (vals []int64, at map[int64]token.Pos, nLookups
 	}
 	for _, fn := range functionsOf(m.pkg) {
 		has := false
+		var plain []*ssa.Lookup
 		for _, b := range fn.Blocks {
 			for _, ins := range b.Instrs {
 				if lk, ok := ins.(*ssa.Lookup); ok {
@@ -187,18 +247,64 @@ func (m *prattModel) fallbacks() (vals []int64, at map[int64]token.Pos, nLookups
 						has = true
 						nLookups++
 						if !lk.CommaOk {
-							add(0, lk.Pos()) // a plain lookup yields the zero value for an absent key
+							plain = append(plain, lk)
 						}
 					}
 				}
 			}
 		}
-		if !has || funcHasLoop(fn) {
+		if !has {
 			continue
 		}
-		paths, ok := walkPaths(fn, nil, nil)
+		var paths []*pwPath
+		ok := false
+		if !funcHasLoop(fn) {
+			pw := &pathWalker{splitMinMax: true}
+			pw.walk(fn)
+			paths, ok = pw.paths, !pw.overflow
+		}
 		if !ok {
+			for _, lk := range plain {
+				add(0, lk.Pos()) // a plain lookup yields the zero value for an absent key
+			}
 			continue
+		}
+		for _, lk := range plain {
+			// a plain lookup yields the zero value for an absent key, unless every path that uses it clamps it from below
+			raw := false
+			for _, p := range paths {
+				clamped := false
+				for _, d := range p.decisions {
+					if l2, _, isClamp := m.clampDecision(p, d); isClamp && origValue(l2) == ssa.Value(lk) {
+						clamped = true
+						if p.end == "return" && len(p.results) == 1 {
+							if c, ok := p.constOf(p.results[0]); ok && c.Kind() == constant.Int {
+								n, _ := constant.Int64Val(c)
+								add(n, p.ret.Pos())
+								continue
+							}
+						}
+						raw = true
+					}
+				}
+				if !clamped {
+					// (the other case of the clamp: the looked-up value is above the constant, the key is present)
+					above := false
+					for _, d := range p.decisions {
+						if bo, isBin := d.cond.(*ssa.BinOp); isBin && d.at == syntheticIf {
+							if l2 := m.tableLookupOf(p, p.resolve(bo.X)); l2 != nil && origValue(l2) == ssa.Value(lk) {
+								above = true
+							}
+						}
+					}
+					if !above {
+						raw = true
+					}
+				}
+			}
+			if raw {
+				add(0, lk.Pos())
+			}
 		}
 		for _, p := range paths {
 			if p.end != "return" || len(p.results) != 1 {
@@ -272,7 +378,7 @@ func c06PrattSSA(r *Run) {
 		return
 	}
 	param := ssa.Value(m.pratt.Params[1])
-	paths, ok := walkPathsUnrolled(m.pratt, nil, m.inline, 20000)
+	paths, ok := walkPathsClamped(m.pratt, m.inline, 20000)
 	if !ok || len(paths) == 0 {
 		r.Lost(rule, "paths of the Pratt entry")
 		return
@@ -360,7 +466,7 @@ func c06PrattSSA(r *Run) {
 		r.Lost(rule, "SSA form of the infix parse function")
 		return
 	}
-	ipaths, ok := walkPathsUnrolled(infix, nil, m.inline, 20000)
+	ipaths, ok := walkPathsClamped(infix, m.inline, 20000)
 	if !ok || len(ipaths) == 0 {
 		r.Lost(rule, "paths of the infix parse function")
 		return
@@ -400,4 +506,11 @@ func c06PrattSSA(r *Run) {
 	default:
 		r.Ok(rule, ssaName(infix), "recursion into the Pratt entry", w.Pos(ipos), fmt.Sprintf("right operand parsed at the operator's own level, read before advancing (%d call(s) on paths)", nRec))
 	}
+}
+
+// walkPathsClamped: unrolled paths with min / max of two integers explored as two cases.
+func walkPathsClamped(fn *ssa.Function, inline func(caller, callee *ssa.Function) bool, max int) ([]*pwPath, bool) {
+	pw := &pathWalker{inline: inline, unroll1: true, maxPaths: max, splitMinMax: true}
+	pw.walk(fn)
+	return pw.paths, !pw.overflow
 }
